@@ -94,6 +94,17 @@ def cases():
         node("Select", "stmt", expressions=Lst([c]), **{"from": node("From", this=table("T")), "laterals": Lst([lat])})
         return c
 
+    def two_flattens(o):
+        idn = lambda n: NodeV("Identifier", {"this": Const(n), "quoted": Const(False)}, open=False)  # noqa: E731
+        col = op(o, "col", node("Column", this=idn("VALUE"), table=idn("F2")))
+        c = op(o, "cast", node("Cast", this=col, to=dtype("VARCHAR")))
+        lats = [node("Lateral", this=node("Explode", this=S(f"arr{i}")), alias=node("TableAlias", this=idn(f"F{i}"))) for i in (1, 2)]
+        node("Select", "stmt", expressions=Lst([c]), **{"from": node("From", this=table("T")), "laterals": Lst(lats)})
+        return c
+
+    add("f2.value::VARCHAR with two LATERAL FLATTENs: the second flatten's value is unquoted too", "flatten_value_cast_as_varchar",
+        mk(two_flattens), lambda o, i: P("JSONExtractScalar", this=IS(o["col"])),
+        "every FLATTEN of the SELECT yields a VALUE column; which one is cast must not matter")
     for target in ("VARCHAR", "TEXT"):
         add(f"f.value::{target} over LATERAL FLATTEN extracts the string (->> '$')", "flatten_value_cast_as_varchar",
             mk(lambda o, target=target: flatten_select(o, target)),
